@@ -604,4 +604,259 @@ theorem stepLevels_none (v : List ℚ) (hne : v ≠ []) :
     exact this
 
 
+/-! ## `interp2d` (C20.a) -/
+
+theorem tol_pos : (0 : ℚ) < tol := by unfold tol; norm_num
+
+theorem gap_lt (xf : List ℚ) (hg : GapNodes xf) (i j : Nat) (hj : j < xf.length) (hij : i < j) :
+    xf[i] < xf[j] := by
+  induction j with
+  | zero => omega
+  | succ k ih =>
+    have h1 := hg k hj
+    rcases Nat.lt_or_eq_of_le (Nat.lt_succ_iff.mp hij) with h | h
+    · have := ih (by omega) h
+      linarith [tol_pos]
+    · subst h; linarith [tol_pos]
+
+theorem gap_le (xf : List ℚ) (hg : GapNodes xf) (i j : Nat) (hj : j < xf.length) (hij : i ≤ j) :
+    xf[i] ≤ xf[j] := by
+  rcases Nat.lt_or_eq_of_le hij with h | h
+  · exact le_of_lt (gap_lt xf hg i j hj h)
+  · subst h; exact le_refl _
+
+/-- if `xf[i] ≤ xf[j]` then `i ≤ j` -/
+theorem gap_idx_le (xf : List ℚ) (hg : GapNodes xf) (i j : Nat) (hi : i < xf.length) (hj : j < xf.length)
+    (h : xf[i] ≤ xf[j]) : i ≤ j := by
+  by_contra hc
+  have := gap_lt xf hg j i hi (by omega)
+  linarith
+
+theorem nearest_spec (xf : List ℚ) (hne : xf ≠ []) (x : ℚ) :
+    ∃ h : nearest xf x < xf.length, ∀ j (hj : j < xf.length), |x - xf[nearest xf x]| ≤ |x - xf[j]| := by
+  have hne' : xf.map (fun a => absv (x - a)) ≠ [] := by simpa using hne
+  obtain ⟨r, hr, hlt, hmin, _⟩ := argmin_spec _ hne'
+  have hr' : nearest xf x = r := hr
+  have hlt' : r < xf.length := by simpa using hlt
+  rw [hr']
+  refine ⟨hlt', ?_⟩
+  intro j hj
+  have := hmin j (by simpa using hj)
+  simpa [absv_eq_abs] using this
+
+theorem weight_gap (a0 a1 x : ℚ) (h : a0 + tol < a1) : weight a0 a1 x = (x - a0) / (a1 - a0) := by
+  unfold weight
+  have h1 : ¬ (a1 - a0 < tol) := by linarith
+  have h2 : a1 - a0 > 0 := by linarith [tol_pos]
+  simp only [h1, if_false, h2, if_true]
+
+theorem weight_same (a x : ℚ) : weight a a x = 1 := by
+  unfold weight
+  simp
+
+theorem rowComb_same (r : List ℚ) : rowComb (1 - 1) 1 r r = r := by
+  unfold rowComb
+  apply List.ext_getElem
+  · simp
+  · intro i h1 h2
+    simp
+
+theorem rowComb_lerp (s : ℚ) (r0 r1 : List ℚ) : rowComb (1 - s) s r0 r1 = lerpRow s r0 r1 := rfl
+
+theorem lerpRow_zero (r0 r1 : List ℚ) (h : r0.length = r1.length) : lerpRow 0 r0 r1 = r0 := by
+  unfold lerpRow
+  apply List.ext_getElem
+  · simp [h]
+  · intro i h1 h2
+    simp
+
+theorem lerpRow_one (r0 r1 : List ℚ) (h : r0.length = r1.length) : lerpRow 1 r0 r1 = r1 := by
+  unfold lerpRow
+  apply List.ext_getElem
+  · simp [h]
+  · intro i h1 h2
+    simp
+
+/-- the row computed for one query, given the looked-up values -/
+theorem interp2dRow_eq (xf : List ℚ) (f : List (List ℚ)) (x xi a0 a1 : ℚ) (f0 f1 : List ℚ)
+    (h1 : pyGet xf (nearest xf x : Nat) = .ok xi)
+    (h2 : pyGet f (lowIdx (nearest xf x) (decide (xi > x))) = .ok f0)
+    (h3 : pyGet f (highIdx xf.length (nearest xf x) (decide (xi > x))) = .ok f1)
+    (h4 : pyGet xf (lowIdx (nearest xf x) (decide (xi > x))) = .ok a0)
+    (h5 : pyGet xf (highIdx xf.length (nearest xf x) (decide (xi > x))) = .ok a1) :
+    interp2dRow xf f x = .ok (rowComb (1 - weight a0 a1 x) (weight a0 a1 x) f0 f1) := by
+  unfold interp2dRow
+  simp only [h1, h2, h3, h4, h5, bind, Except.bind, pure, Except.pure]
+
+
+theorem interp2dRow_idx (xf : List ℚ) (f : List (List ℚ)) (x : ℚ) (hf : xf.length ≤ f.length)
+    (hlt : nearest xf x < xf.length) (i0 i1 : Nat) (h0 : i0 < xf.length) (h1 : i1 < xf.length)
+    (e0 : lowIdx (nearest xf x) (decide (xf[nearest xf x] > x)) = (i0 : Int))
+    (e1 : highIdx xf.length (nearest xf x) (decide (xf[nearest xf x] > x)) = (i1 : Int)) :
+    interp2dRow xf f x = .ok (rowComb (1 - weight xf[i0] xf[i1] x) (weight xf[i0] xf[i1] x)
+      (f[i0]'(by omega)) (f[i1]'(by omega))) := by
+  apply interp2dRow_eq xf f x (xf[nearest xf x]) xf[i0] xf[i1]
+  · exact pyGet_nat xf _ hlt
+  · rw [e0]; exact pyGet_nat f i0 (by omega)
+  · rw [e1]; exact pyGet_nat f i1 (by omega)
+  · rw [e0]; exact pyGet_nat xf i0 h0
+  · rw [e1]; exact pyGet_nat xf i1 h1
+
+theorem interp2dRow_clamped (xf : List ℚ) (f : List (List ℚ)) (hne : xf ≠ []) (hg : GapNodes xf)
+    (hf : xf.length ≤ f.length) (x : ℚ) :
+    ∃ R, interp2dRow xf f x = .ok R ∧ IsClampedLerp xf f hf x R := by
+  obtain ⟨hlt, hmin⟩ := nearest_spec xf hne x
+  have hn : 0 < xf.length := List.length_pos_iff.mpr hne
+  generalize hind : nearest xf x = ind at hlt hmin
+  by_cases hgt : xf[ind] > x
+  · -- the nearest node is to the right of the query
+    by_cases hz : ind = 0
+    · subst hz
+      have e0 : lowIdx (nearest xf x) (decide (xf[nearest xf x] > x)) = ((0 : Nat) : Int) := by
+        simp only [hind, hgt, decide_true, lowIdx]; simp
+      have e1 : highIdx xf.length (nearest xf x) (decide (xf[nearest xf x] > x)) = ((0 : Nat) : Int) := by
+        simp only [hind, hgt, decide_true, highIdx]
+        simp only [if_true]; split_ifs <;> omega
+      refine ⟨_, interp2dRow_idx xf f x hf (by omega) 0 0 hn hn e0 e1, ?_⟩
+      left
+      refine ⟨hn, le_of_lt hgt, ?_⟩
+      rw [weight_same, rowComb_same]
+    · have hpos : 1 ≤ ind := by omega
+      have e0 : lowIdx (nearest xf x) (decide (xf[nearest xf x] > x)) = ((ind - 1 : Nat) : Int) := by
+        simp only [hind, hgt, decide_true, lowIdx]
+        simp only [if_true]; split_ifs <;> omega
+      have e1 : highIdx xf.length (nearest xf x) (decide (xf[nearest xf x] > x)) = ((ind : Nat) : Int) := by
+        simp only [hind, hgt, decide_true, highIdx]
+        simp only [if_true]; split_ifs <;> omega
+      refine ⟨_, interp2dRow_idx xf f x hf (by omega) (ind - 1) ind (by omega) hlt e0 e1, ?_⟩
+      right; right
+      have hgap := hg (ind - 1) (by omega)
+      have hidx : ind - 1 + 1 = ind := by omega
+      simp only [hidx] at hgap
+      -- xf[ind-1] ≤ x, else ind-1 would be nearer
+      have hle : xf[ind - 1] ≤ x := by
+        by_contra hc
+        have hc : x < xf[ind - 1] := not_le.mp hc
+        have h1 := hmin (ind - 1) (by omega)
+        rw [abs_of_neg (by linarith), abs_of_neg (by linarith)] at h1
+        linarith [tol_pos]
+      refine ⟨ind - 1, by omega, hle, by simp only [hidx]; exact le_of_lt hgt, ?_⟩
+      simp only [hidx]
+      rw [weight_gap _ _ _ hgap, rowComb_lerp]
+  · -- the nearest node is at or left of the query
+    have hle : xf[ind] ≤ x := not_lt.mp hgt
+    by_cases hlast : ind + 1 < xf.length
+    · have e0 : lowIdx (nearest xf x) (decide (xf[nearest xf x] > x)) = ((ind : Nat) : Int) := by
+        simp only [hind, hgt, decide_false, lowIdx]
+        simp
+      have e1 : highIdx xf.length (nearest xf x) (decide (xf[nearest xf x] > x)) = ((ind + 1 : Nat) : Int) := by
+        simp only [hind, hgt, decide_false, highIdx]
+        simp only [Bool.false_eq_true, if_false]; split_ifs <;> omega
+      refine ⟨_, interp2dRow_idx xf f x hf (by omega) ind (ind + 1) hlt hlast e0 e1, ?_⟩
+      right; right
+      have hgap := hg ind hlast
+      have hle2 : x ≤ xf[ind + 1] := by
+        by_contra hc
+        have hc : xf[ind + 1] < x := not_le.mp hc
+        have h1 := hmin (ind + 1) hlast
+        rw [abs_of_nonneg (by linarith), abs_of_nonneg (by linarith)] at h1
+        linarith [tol_pos]
+      refine ⟨ind, hlast, hle, hle2, ?_⟩
+      rw [weight_gap _ _ _ hgap, rowComb_lerp]
+    · have hind' : ind = xf.length - 1 := by omega
+      have e0 : lowIdx (nearest xf x) (decide (xf[nearest xf x] > x)) = ((ind : Nat) : Int) := by
+        simp only [hind, hgt, decide_false, lowIdx]
+        simp
+      have e1 : highIdx xf.length (nearest xf x) (decide (xf[nearest xf x] > x)) = ((ind : Nat) : Int) := by
+        simp only [hind, hgt, decide_false, highIdx]
+        simp only [Bool.false_eq_true, if_false]; split_ifs <;> omega
+      refine ⟨_, interp2dRow_idx xf f x hf (by omega) ind ind hlt hlt e0 e1, ?_⟩
+      right; left
+      subst hind'
+      refine ⟨hn, hle, ?_⟩
+      rw [weight_same, rowComb_same]
+
+
+/-- a clamped-lerp row at a lower-clamped query -/
+theorem clamped_low (xf : List ℚ) (f : List (List ℚ)) (hg : GapNodes xf) (hf : xf.length ≤ f.length)
+    (w : Nat) (hw : ∀ r ∈ f, r.length = w) (x : ℚ) (R : List ℚ) (hR : IsClampedLerp xf f hf x R)
+    (h0 : 0 < xf.length) (hx : x ≤ xf[0]) : R = f[0]'(by omega) := by
+  rcases hR with ⟨_, _, h⟩ | ⟨_, h1, h⟩ | ⟨i, hi, h1, h2, h⟩
+  · exact h
+  · have : xf.length - 1 ≤ 0 := gap_idx_le xf hg _ _ (by omega) h0 (le_trans h1 hx)
+    have e : xf.length - 1 = 0 := by omega
+    simp only [e] at h; exact h
+  · have : i ≤ 0 := gap_idx_le xf hg _ _ (by omega) h0 (le_trans h1 hx)
+    have e : i = 0 := by omega
+    subst e
+    have hxe : x = xf[0] := le_antisymm hx h1
+    rw [h, hxe, sub_self, zero_div]
+    exact lerpRow_zero _ _ (by rw [hw _ (List.getElem_mem _), hw _ (List.getElem_mem _)])
+
+theorem clamped_high (xf : List ℚ) (f : List (List ℚ)) (hg : GapNodes xf) (hf : xf.length ≤ f.length)
+    (w : Nat) (hw : ∀ r ∈ f, r.length = w) (x : ℚ) (R : List ℚ) (hR : IsClampedLerp xf f hf x R)
+    (h0 : 0 < xf.length) (hx : xf[xf.length - 1] ≤ x) : R = f[xf.length - 1]'(by omega) := by
+  rcases hR with ⟨_, h1, h⟩ | ⟨_, _, h⟩ | ⟨i, hi, h1, h2, h⟩
+  · have : xf.length - 1 ≤ 0 := gap_idx_le xf hg _ _ (by omega) h0 (le_trans hx h1)
+    have e : xf.length - 1 = 0 := by omega
+    simp only [e]; exact h
+  · exact h
+  · have : xf.length - 1 ≤ i + 1 := gap_idx_le xf hg _ _ (by omega) hi (le_trans hx h2)
+    have e : xf.length - 1 = i + 1 := by omega
+    simp only [e] at hx ⊢
+    have hxe : x = xf[i+1] := le_antisymm h2 hx
+    have hgap := hg i hi
+    have hne : xf[i+1] - xf[i] ≠ 0 := by linarith [tol_pos]
+    rw [h, hxe, div_self hne]
+    exact lerpRow_one _ _ (by rw [hw _ (List.getElem_mem _), hw _ (List.getElem_mem _)])
+
+theorem clamped_mid (xf : List ℚ) (f : List (List ℚ)) (hg : GapNodes xf) (hf : xf.length ≤ f.length)
+    (w : Nat) (hw : ∀ r ∈ f, r.length = w) (x : ℚ) (R : List ℚ) (hR : IsClampedLerp xf f hf x R)
+    (j : Nat) (hj : j + 1 < xf.length) (hx1 : xf[j] ≤ x) (hx2 : x ≤ xf[j+1]) :
+    R = lerpRow ((x - xf[j]) / (xf[j+1] - xf[j])) (f[j]'(by omega)) (f[j+1]'(by omega)) := by
+  have hgapj := hg j hj
+  have hnej : xf[j+1] - xf[j] ≠ 0 := by linarith [tol_pos]
+  have hwid : ∀ a b (ha : a < f.length) (hb : b < f.length), f[a].length = f[b].length := by
+    intro a b ha hb
+    rw [hw _ (List.getElem_mem _), hw _ (List.getElem_mem _)]
+  rcases hR with ⟨h0, h1, h⟩ | ⟨h0, h1, h⟩ | ⟨i, hi, h1, h2, h⟩
+  · -- x ≤ xf[0] and xf[j] ≤ x: j = 0, x = xf[0]
+    have : j ≤ 0 := gap_idx_le xf hg _ _ (by omega) h0 (le_trans hx1 h1)
+    have e : j = 0 := by omega
+    subst e
+    have hxe : x = xf[0] := le_antisymm h1 hx1
+    rw [h, hxe, sub_self, zero_div, lerpRow_zero _ _ (hwid _ _ _ _)]
+  · have : xf.length - 1 ≤ j + 1 := gap_idx_le xf hg _ _ (by omega) hj (le_trans h1 hx2)
+    have e : xf.length - 1 = j + 1 := by omega
+    simp only [e] at h h1
+    have hxe : x = xf[j+1] := le_antisymm hx2 h1
+    rw [h, hxe, div_self hnej, lerpRow_one _ _ (hwid _ _ _ _)]
+  · have hgapi := hg i hi
+    have hnei : xf[i+1] - xf[i] ≠ 0 := by linarith [tol_pos]
+    rcases Nat.lt_trichotomy i j with hlt | heq | hgt
+    · -- i < j: x = xf[i+1] = xf[j]
+      have h3 : j ≤ i + 1 := gap_idx_le xf hg _ _ (by omega) hi (le_trans hx1 h2)
+      have e : j = i + 1 := by omega
+      subst e
+      have hxe : x = xf[i+1] := le_antisymm h2 hx1
+      rw [h, hxe, div_self hnei, sub_self, zero_div, lerpRow_one _ _ (hwid _ _ _ _),
+        lerpRow_zero _ _ (hwid _ _ _ _)]
+    · subst heq; exact h
+    · have h3 : i ≤ j + 1 := gap_idx_le xf hg _ _ (by omega) hj (le_trans h1 hx2)
+      have e : i = j + 1 := by omega
+      subst e
+      have hxe : x = xf[j+1] := le_antisymm hx2 h1
+      rw [h, hxe, div_self hnej, sub_self, zero_div, lerpRow_one _ _ (hwid _ _ _ _),
+        lerpRow_zero _ _ (hwid _ _ _ _)]
+
+/-- `interp2d` on strictly increasing nodes: every output row is the clamped column-wise linear interpolation -/
+theorem interp2d_clamped (x xf : List ℚ) (f : List (List ℚ)) (hne : xf ≠ []) (hg : GapNodes xf)
+    (hf : xf.length ≤ f.length) :
+    ∃ rows, interp2d x xf f = .ok rows ∧ List.Forall₂ (fun q R => IsClampedLerp xf f hf q R) x rows := by
+  have hn : xf.length ≠ 0 := by simpa using hne
+  unfold interp2d
+  rw [if_neg hn]
+  exact mapM_forall₂ _ _ x (fun q _ => interp2dRow_clamped xf f hne hg hf q)
+
+
 end EqsigVerif.Lemmas.Fns
